@@ -356,11 +356,11 @@ bool StateMachine::Impl::start()
     ++cb_level_;
     if (init_state->enter_action)
         init_state->enter_action(Event());
-    --cb_level_;
 
     //! 如果有子状态机，在启动子状态机
     if (curr_state_->sub_sm != nullptr)
         curr_state_->sub_sm->start();
+    --cb_level_;
 
     return true;
 }
@@ -375,11 +375,11 @@ void StateMachine::Impl::stop()
         return;
     }
 
+    ++cb_level_;
     //! 如果有子状态机，先停止子状态机
     if (curr_state_->sub_sm != nullptr)
         curr_state_->sub_sm->stop();
 
-    ++cb_level_;
     if (curr_state_->exit_action)
         curr_state_->exit_action(Event());
     --cb_level_;
@@ -402,10 +402,14 @@ bool StateMachine::Impl::run(Event event)
 
     //! 如果有子状态机，则给子状态机处理
     if (curr_state_->sub_sm != nullptr) {
+        ++cb_level_;
         bool ret = curr_state_->sub_sm->run(event);
-        if (!curr_state_->sub_sm->isTerminated())
+        bool is_sub_term = curr_state_->sub_sm->isTerminated();
+        if (is_sub_term)
+            curr_state_->sub_sm->stop();
+        --cb_level_;
+        if (!is_sub_term)
             return ret;
-        curr_state_->sub_sm->stop();
     }
 
     StateID next_state_id = NULL_STATE_ID;
